@@ -74,6 +74,8 @@ static void cmd_asm(const J& c)
             g_dummy_names[slot] = name;
             if (cls == "b") { rt.register_sqfop(sqf::runtime::sqfop::binary((short)d.num("prec"), name, sqf::types::t_any(), sqf::types::t_any(), "DUMMY", g_bin[slot])); }
             else if (cls == "u") { rt.register_sqfop(sqf::runtime::sqfop::unary(name, sqf::types::t_any(), "DUMMY", g_un[slot])); }
+            // a binary operator defined for (SCALAR, ARRAY) only: applied the other way round nothing is defined
+            else if (cls == "bt") { rt.register_sqfop(sqf::runtime::sqfop::binary((short)d.num("prec"), name, sqf::runtime::t_scalar(), sqf::runtime::t_array(), "DUMMY", g_bin[slot])); }
             else if (cls == "uv") { rt.register_sqfop(sqf::runtime::sqfop::unary(name, sqf::types::t_any(), "DUMMY", dummy_un_void)); }
             else if (cls == "nv") { rt.register_sqfop(sqf::runtime::sqfop::nular(name, "DUMMY", dummy_nu_void)); }
             else if (cls == "n") { rt.register_sqfop(sqf::runtime::sqfop::nular(name, "DUMMY", g_nu[slot])); }
